@@ -179,6 +179,32 @@ func GenBuilder(r *rand.Rand, mode string) *BProg {
 	if r.Intn(50) == 0 {
 		prog[r.Intn(n)].arg = []uint32{6, 0x1FFFFFFE, 0xFFFFFFFF, 0x20000000}[r.Intn(4)]
 	}
+	// A far label that marks a return, and the *same* return value once more at a boundary distance from the jump
+	// (what "reuse a return that is already in reach" would look for), the instruction behind the jump returning
+	// something else.
+	if n >= 300 && r.Intn(5) == 0 {
+		i := r.Intn(n - 290)
+		room := n - 2 - (i + 1) // largest usable distance
+		if room >= 259 {
+			d := 258 + r.Intn(min(room-258, 500)+1)
+			sk := []int{253, 254, 255, 256, 257}[r.Intn(5)]
+			val := []uint32{0x00030000, 0x00050001, 0x7ffc0000, 0x80000000}[r.Intn(4)]
+			in := ins{kind: "jt", test: allTests[r.Intn(8)], k: r.Uint32() >> uint(r.Intn(32)), tl: i + 1 + d, fl: -1}
+			if r.Intn(2) == 0 {
+				in.kind, in.fl = "jif", i+1+[]int{1, 2, 3, 300}[r.Intn(4)]
+				if in.fl > n-1 {
+					in.fl = n - 1
+				}
+			}
+			prog[i] = in
+			prog[i+1+d] = ins{kind: "ret", k: val}
+			prog[i+1+sk] = ins{kind: "ret", k: val}
+			if r.Intn(2) == 0 {
+				prog[i+1] = ins{kind: "ret", k: 0x7fff0000}
+			}
+			bp.Tags["same-return-at-boundary-distance-before-a-far-return-label"] = true
+		}
+	}
 	// labels: one per distinct (target position), shared between jumps with probability 1/2
 	labelAt := map[int][]int{} // position -> label ids placed there
 	newLabel := func(pos int) int {
